@@ -16,6 +16,7 @@ mod parse;
 mod path;
 mod pos;
 mod pratt;
+mod compile;
 mod prog;
 mod regalloc;
 mod susp;
@@ -41,6 +42,7 @@ fn main() {
         "mod" => modl::line,
         "pos" => pos::line,
         "pratt" => pratt::line,
+        "compile" => compile::line,
         "prog" => prog::line,
         "proge" => prog::line_escaped,
         "regalloc" => regalloc::line,
